@@ -3,8 +3,12 @@ namespace GoJson.Model.Key
 
 theorem isHex_zero : isHex 0 = false := by decide
 
-theorem isHex_plain (c : UInt8) (h : isHex c = true) : (c == 34) = false ∧ (c == 0) = false ∧ (c == 92) = false := by
-  refine ⟨?_, ?_, ?_⟩ <;>
+theorem isHex_not_ctl (c : UInt8) (h : isHex c = true) : ¬ c.toNat < 32 := by
+  simp only [isHex, Bool.or_eq_true, Bool.and_eq_true, decide_eq_true_eq] at h
+  omega
+
+theorem isHex_plain (c : UInt8) (h : isHex c = true) : (c == 34) = false ∧ ¬ c.toNat < 32 ∧ (c == 92) = false := by
+  refine ⟨?_, isHex_not_ctl c h, ?_⟩ <;>
   · cases hc : (c == _) with
     | false => rfl
     | true =>
@@ -12,7 +16,7 @@ theorem isHex_plain (c : UInt8) (h : isHex c = true) : (c == 34) = false ∧ (c 
       subst hc
       revert h; decide
 
-theorem skipRest_plain (c : UInt8) (r : List UInt8) (h1 : (c == 34) = false) (h2 : (c == 0) = false)
+theorem skipRest_plain (c : UInt8) (r : List UInt8) (h1 : (c == 34) = false) (h2 : ¬ c.toNat < 32)
     (h3 : (c == 92) = false) : skipRest (c :: r) = skipRest r := by
   conv => lhs; unfold skipRest
   simp [h1, h2, h3]
